@@ -72,14 +72,23 @@ impl C08 {
         let want = vlen == sum && tgt == sum + 1;
         ctx.class(if want { "ctor_accept" } else { "ctor_reject" });
         ctx.nontrivial(&("ctor", &sizes, tgt, vlen));
+        // the list-of-lists reading of accepted data (only meaningful when the sizes sum to the value length)
+        let want_l: LL = if vlen == sum { let mut at = 0; sizes.iter().map(|&k| { let s = values[at..at + k].to_vec(); at += k; s }).collect() } else { vec![] };
+        let want_ls: Vec<Vec<String>> = want_l.iter().map(|l| l.iter().map(|x| format!("v{}", x)).collect()).collect();
         let r1 = guard(|| IndexedCoproduct::<VecKind, FF>::new(ff(sizes.clone(), tgt), ff(values.clone(), vt)));
         if let Some(x) = must_return(ctx, "new<FF>", "ctor", r1, input) {
             ctx.check(x.is_some() == want, "new<FF>/accept-iff/value/ctor", || json!({"input": input(), "observed_some": x.is_some(), "expected_some": want}));
+            if let Some(seg) = x {
+                expect_seg(ctx, "new<FF>", &seg, &want_l, vt, &input);
+            }
         }
         let sv: Vec<String> = values.iter().map(|x| format!("v{}", x)).collect();
         let r2 = guard(|| IndexedCoproduct::<VecKind, SF<String>>::new(ff(sizes.clone(), tgt), sf(sv.clone())));
         if let Some(x) = must_return(ctx, "new<SF>", "ctor", r2, input) {
             ctx.check(x.is_some() == want, "new<SF>/accept-iff/value/ctor", || json!({"input": input(), "observed_some": x.is_some(), "expected_some": want}));
+            if let Some(seg) = x {
+                expect_segs(ctx, "new<SF>", &seg, &want_ls, &input);
+            }
         }
         // from_semifinite computes the codomain itself: accepted iff sizes sum to the value length
         let want2 = vlen == sum;
@@ -95,6 +104,9 @@ impl C08 {
         let r4 = guard(|| IndexedCoproduct::<VecKind, SF<String>>::from_semifinite(sf(sizes.clone()), sf(sv.clone())));
         if let Some(x) = must_return(ctx, "from_semifinite<SF>", "ctor", r4, input) {
             ctx.check(x.is_some() == want2, "from_semifinite<SF>/accept-iff/value/ctor", || json!({"input": input(), "observed_some": x.is_some(), "expected_some": want2}));
+            if let Some(seg) = x {
+                expect_segs(ctx, "from_semifinite<SF>", &seg, &want_ls, &input);
+            }
         }
     }
 
@@ -226,6 +238,16 @@ impl C08 {
             }
         }
 
+        if let Some(m) = must_return(ctx, "indexed_values<SF>", "any", guard(|| ssa.indexed_values(&fx)), input_x) {
+            let want: Vec<String> = strs(&want_ix).into_iter().flatten().collect();
+            match (typed, m) {
+                (true, Some(v)) => { ctx.check(v.0 .0 == want, "indexed_values<SF>/concat/value/typed", || json!({"input": input_x(), "observed": v.0 .0, "expected": want})); }
+                (true, None) => { ctx.check(false, "indexed_values<SF>/defined/value/typed", || json!({"input": input_x(), "observed": "None"})); }
+                (false, Some(_)) => { ctx.check(false, "indexed_values<SF>/undefined/value/mistyped", || json!({"input": input_x(), "observed": "Some"})); }
+                (false, None) => { ctx.evaluations += 1; }
+            }
+        }
+
         // map_values / map_semifinite
         let mt = if r.chance(5, 6) { ta } else { ta + 1 };
         let codt = r.range(1, 4);
@@ -283,6 +305,26 @@ impl C08 {
             expect_segs(ctx, "flatmap_sources", &res, &want, &input_d);
         }
 
+        // the same with finite-function values on the right (the codomain carries over), and with
+        // label values on the left (only the segment sizes of `self` matter)
+        let sdf = seg_from_lists(&d, 5);
+        if let Some(res) = must_return(ctx, "flatmap_sources<FF>", "any", guard(|| sa.flatmap_sources(&sdf)), input_d) {
+            let mut at = 0;
+            let mut want: LL = vec![];
+            for s in &a {
+                let mut seg = vec![];
+                for _ in 0..s.len() {
+                    seg.extend(d[at].iter().cloned());
+                    at += 1;
+                }
+                want.push(seg);
+            }
+            expect_seg(ctx, "flatmap_sources<FF>", &res, &want, 5, &input_d);
+            if let Some(res2) = must_return(ctx, "flatmap_sources<SF,FF>", "any", guard(|| ssa.flatmap_sources(&sdf)), input_d) {
+                expect_seg(ctx, "flatmap_sources<SF,FF>", &res2, &want, 5, &input_d);
+            }
+        }
+
         // iterators: every slice once, in order; exact remaining count through len() and size_hint()
         self.iterators(ctx, &a, ta, &input);
         ctx.sample(if a.is_empty() { "zero_segments" } else { "random" }, || json!({"a": a, "a_target": ta, "b": b, "x": x}));
@@ -296,20 +338,28 @@ impl C08 {
             let r = guard(|| {
                 let mut it = sa.into_iter();
                 let mut log: Vec<(usize, (usize, Option<usize>), Option<Vec<usize>>)> = vec![];
+                let mut bad_target: Option<usize> = None;
                 loop {
                     let l = it.len();
                     let h = it.size_hint();
                     let x = it.next();
                     let done = x.is_none();
+                    // every yielded slice is a finite function into the codomain of the values
+                    if let Some(f) = &x {
+                        if f.target != ta {
+                            bad_target = Some(f.target);
+                        }
+                    }
                     log.push((l, h, x.map(|f| f.table.0.clone())));
                     if done || log.len() > n + 3 {
                         break;
                     }
                 }
                 // after exhaustion the iterator must keep reporting 0
-                (log, it.len(), it.size_hint())
+                (log, it.len(), it.size_hint(), bad_target)
             });
-            if let Some((log, end_len, end_hint)) = must_return(ctx, "into_iter<FF>", "any", r, input) {
+            if let Some((log, end_len, end_hint, bad_target)) = must_return(ctx, "into_iter<FF>", "any", r, input) {
+                ctx.check(bad_target.is_none(), "into_iter<FF>/slices-keep-the-codomain/value/any", || json!({"input": input(), "observed_codomain": bad_target, "expected_codomain": ta}));
                 ctx.count_n("events:iterator_steps", log.len() as u64);
                 if log.len() > 1 {
                     ctx.class("partially_consumed_iterator");
